@@ -9,6 +9,7 @@ import (
 	"fmt"
 	"go/ast"
 	"go/token"
+	"go/types"
 	"math/rand"
 	"os"
 	"path/filepath"
@@ -477,6 +478,7 @@ func genRuleSet(rng *rand.Rand, pats []patInfo, cat *extraCatalogue, bundles map
 			if (isPkgs && rng.Intn(2) == 0) || (!isPkgs && rng.Intn(12) == 0) {
 				gimports = genImports(rng)
 			}
+			needDo, needInt := false, false
 			w("func " + group + "(m dsl.Matcher) {\n")
 			w(importLines(gimports))
 			nmatch := 1
@@ -490,7 +492,8 @@ func genRuleSet(rng *rand.Rand, pats []patInfo, cat *extraCatalogue, bundles map
 					w("\tm.MatchComment(`" + cp + "`).Report(`" + group + "`)\n")
 					continue
 				}
-				filt := []string{"", "", "", "dead", "live", "const"}[rng.Intn(6)]
+				// "do": reported by a Do() handler; "cint": a custom bytecode filter (accepts iff $x has type int)
+				filt := []string{"", "", "", "dead", "live", "const", "do", "cint"}[rng.Intn(8)]
 				if (isContains && rng.Intn(2) == 0) || (!isContains && rng.Intn(12) == 0) {
 					filt = "contains"
 				}
@@ -523,7 +526,7 @@ func genRuleSet(rng *rand.Rand, pats []patInfo, cat *extraCatalogue, bundles map
 					filt = ""
 				}
 				pool, pkgPool := plain, pkgs
-				if filt == "const" {
+				if filt == "const" || filt == "cint" {
 					pool, pkgPool = xs, pkgsX
 				}
 				// a popular pattern now and then, so that rules compete for the same nodes
@@ -550,12 +553,26 @@ func genRuleSet(rng *rand.Rand, pats []patInfo, cat *extraCatalogue, bundles map
 					w("\t\t`" + p.Src + "`,\n")
 				}
 				w("\t)")
-				if filt != "" {
-					w(".Where(" + whereSrc(filt) + ")")
+				switch filt {
+				case "do":
+					w(".Do(" + group + "_do)\n")
+					needDo = true
+				case "cint":
+					w(".Where(m[\"x\"].Filter(" + group + "_int)).Report(`" + group + "`)\n")
+					needInt = true
+				case "":
+					w(".Report(`" + group + "`)\n")
+				default:
+					w(".Where(" + whereSrc(filt) + ").Report(`" + group + "`)\n")
 				}
-				w(".Report(`" + group + "`)\n")
 			}
 			w("}\n\n")
+			if needDo {
+				w("func " + group + "_do(ctx *dsl.DoContext) {\n\tctx.SetReport(`" + group + "`)\n}\n\n")
+			}
+			if needInt {
+				w("func " + group + "_int(ctx *dsl.VarFilterContext) bool {\n\treturn ctx.Type.String() == `int`\n}\n\n")
+			}
 			after = afterOf(gimports)
 		}
 		for bi, bf := range imported {
@@ -826,6 +843,23 @@ func runRulesMode(enc *json.Encoder, rng *rand.Rand, nsets, size int, tmp string
 						v = dead[tn.id]
 					case "live":
 						v = !dead[tn.id]
+					case "cint":
+						v = false
+						if x, ok := m.CapturedByName("x"); ok {
+							var ex ast.Expr
+							switch x := x.(type) {
+							case ast.Expr:
+								ex = x
+							case *ast.ExprStmt:
+								ex = x.X
+							}
+							if ex != nil {
+								// the type of the expression, or of the object an identifier defines / uses
+								if typ := t.Info.TypeOf(ex); typ != nil && types.Unalias(typ).String() == "int" {
+									v = true
+								}
+							}
+						}
 					case "const":
 						v = false
 						if x, ok := m.CapturedByName("x"); ok {
